@@ -173,7 +173,7 @@ func extractIsolated(repo string, fx *Facts) {
 				found = true
 				for _, e := range cl.Elts {
 					if kv, ok := e.(*ast.KeyValueExpr); ok {
-						f.CtorKeys = append(f.CtorKeys, rxNoSpace(types.ExprString(kv.Key)))
+						f.CtorKeys = append(f.CtorKeys, rxNoSpace(types.ExprString(kv.Key))+"="+rxNoSpace(types.ExprString(kv.Value)))
 					} else {
 						f.CtorKeys = append(f.CtorKeys, "?positional")
 					}
@@ -183,6 +183,15 @@ func extractIsolated(repo string, fx *Facts) {
 		})
 		if !found {
 			fx.miss("isolated.ctorLiteral")
+		}
+		// the constructor is that one return statement: it wraps the job it is handed (its parameter), nothing is decided before
+		if len(ctor.Body.List) != 1 {
+			f.CtorKeys = append(f.CtorKeys, fmt.Sprintf("?statements=%d", len(ctor.Body.List)))
+		}
+		if ctor.Type.Params != nil && len(ctor.Type.Params.List) == 1 && len(ctor.Type.Params.List[0].Names) == 1 {
+			f.CtorKeys = append(f.CtorKeys, "param="+ctor.Type.Params.List[0].Names[0].Name)
+		} else {
+			f.CtorKeys = append(f.CtorKeys, "?params")
 		}
 	} else {
 		fx.miss("isolated.NewIsolatedJob")
